@@ -131,6 +131,11 @@ def main():
         ex, body, _ = c01.make_family(H, 2, quick)()
         return ex, body, None
     parts[1] = ("the same on groups of 2 definitions over leaves, sums, calls, lambdas", family_factory(H, quick))
+    for name, alpha, b in TC.interplay_families(True, "ADE" if quick else "ABCDE"):
+        parts.append((name, c03.make_factory(H, b, alpha, 6000, obligations)))
+    only = os.environ.get("C04_PARTS")
+    if only:
+        parts = [p for i, p in enumerate(parts) if str(i) in only.split(",")]
     for name, mk in parts:
         t0 = time.time()
         m = parallel_explore(mk, H.jobs)
